@@ -226,8 +226,11 @@ UNIT = Unit(
            subst=[("Option<Self::Item>", "Option<Output>", 1), ("for _ in 0..self.step - 1 {", "for _ in it: 0..self.step - 1 {", 1)],
            loops={1: r"""
             invariant
-                self.step == old(self).step,
+                self.step == old(self).step, old(self).step >= 1,
                 self.iter.rem() =~= old(self).iter.rem().skip(min(1 + it.index@ as int, old(self).iter.rem().len() as int)),
+            ensures
+                // (the loop is left early once the source is exhausted: nothing is left to skip)
+                self.iter.rem() =~= old(self).iter.rem().skip(min(old(self).step as int, old(self).iter.rem().len() as int)),
 """},
            spec=r"""
     requires old(self).wf(),
@@ -380,8 +383,11 @@ UNIT = Unit(
            subst=[("Option<Self::Item>", "Option<Output>", 1), ("for _ in 0..self.step - 1 {", "for _ in it: 0..self.step - 1 {", 1)],
            loops={1: r"""
             invariant
-                self.step == old(self).step,
+                self.step == old(self).step, old(self).step >= 1,
                 self.iter.rem() =~= old(self).iter.rem().skip(min(1 + it.index@ as int, old(self).iter.rem().len() as int)),
+            ensures
+                // (the loop is left early once the source is exhausted: nothing is left to skip)
+                self.iter.rem() =~= old(self).iter.rem().skip(min(old(self).step as int, old(self).iter.rem().len() as int)),
 """},
            spec=r"""
     requires old(self).wf(),
